@@ -25,6 +25,7 @@ class Ctx:
             self.nctx.never_none = frozenset(self._never_none_attrs())
         except Exception:
             self.nctx.never_none = frozenset()
+        self.nctx.rewrites = (self._enum_reduction, self._reduction_canon)
         self.w = dl.Widths(idx, fi.cls, self.t, extra_bits)
         self.eng = dl.Engine(self.w, self.nctx)
         if not getattr(self.t, "wires_expanded", False):
@@ -552,6 +553,10 @@ class Ctx:
                           x[2][1] == ('name', 'self') and x[2][2] in nn else None)
             if e2 != e:
                 e = ir.norm(e2, self.nctx)
+        if ir.contains(e, lambda x: x[0] == 'call' and x[1][0] == 'attr' and x[1][2] in ('all', 'any') and not x[2]):
+            e2 = ir.subst(e, self._enum_reduction)
+            if e2 != e:
+                e = ir.norm(e2, self.nctx)
         if ir.contains(e, lambda x: x[0] == 'attr' and x[1][0] == 'call' and x[1][1][0] in ('name', 'attr')):
             e2 = ir.subst(e, self._ctor_field)
             if e2 != e:
@@ -561,6 +566,102 @@ class Ctx:
             if e2 != e:
                 e = ir.norm(e2, self.nctx)
         return e
+
+    def _enum_reduction(self, x):
+        """`S.all()` / `S.as_value().all()` for a signal S that this function decodes with a Switch over the members of one
+        enumeration: all bits set is the member whose value is 2**w - 1 (w = the width of the largest member); `.any()` is
+        `S != <the member 0>`.  Only when such members exist."""
+        if not (x[0] == 'call' and x[1][0] == 'attr' and x[1][2] in ('all', 'any') and not x[2] and not x[3]):
+            return None
+        s = x[1][1]
+        if s[0] == 'call' and s[1][0] == 'attr' and s[1][2] == 'as_value' and not s[2]:
+            s = s[1][1]
+        for sid, subj in self.t.switches.items():
+            if ir.norm(subj, self.nctx) != ir.norm(s, self.nctx):
+                continue
+            pats = [p_[0] for p_ in self.t.switch_cases.get(sid, []) if len(p_) == 1]
+            enums = {p_[1][1] for p_ in pats if p_[0] == 'attr' and p_[1][0] == 'name'}
+            if len(enums) != 1 or len(pats) != len(self.t.switch_cases.get(sid, [])):
+                continue
+            tab = self.idx.enums.get(next(iter(enums)))
+            if not tab or not all(isinstance(v, int) and v >= 0 for v in tab.values()):
+                continue
+            w = max(v.bit_length() for v in tab.values()) or 1
+            want = (2 ** w - 1) if x[1][2] == 'all' else 0
+            hit = [k for k, v in tab.items() if v == want]
+            if len(hit) != 1:
+                continue
+            member = ('attr', ('name', next(iter(enums))), hit[0])
+            eq = ('cmp', '==', s, member)
+            return eq if x[1][2] == 'all' else ('un', 'not', eq)
+        return None
+
+    def _reduction_canon(self, x):
+        """`V.any()` / `V.all()` / `V.bool()` where V is a bitwise combination (&, |, ^, ~) of vectors that all have the same declared
+        width: bit k of V is one Boolean function f of bit k of each vector, so the reduction is determined by f.  The vector is
+        rewritten in a canonical sum-of-minterms form (and `all()` as `~(~V).any()`), which makes De Morgan, distribution and
+        absorption variants of one reduction equal.  With vectors of different widths these laws do not hold (the narrower operand
+        is zero-extended *before* an outer `~`), so nothing is rewritten then."""
+        if not (x[0] == 'call' and x[1][0] == 'attr' and x[1][2] in ('any', 'all', 'bool') and not x[2] and not x[3]):
+            return None
+        v = x[1][1]
+        leaves = []
+
+        def collect(e):
+            if e[0] == 'nary' and e[1] in ('&', '|', '^'):
+                return all(collect(y) for y in e[2])
+            if e[0] == 'un' and e[1] == '~':
+                return collect(e[2])
+            if e[0] in ('attr', 'sig', 'sub', 'name'):
+                if e not in leaves:
+                    leaves.append(e)
+                return True
+            return False
+        if not collect(v) or not (v[0] in ('nary', 'un')) or not (1 <= len(leaves) <= 4):
+            return None
+        ws = [self.width_of(l_) for l_ in leaves]
+        if any(w is None for w in ws) or any(w != ws[0] for w in ws):
+            return None
+        order = sorted(leaves, key=ir.show)
+
+        def ev(e, a):
+            if e[0] == 'nary':
+                vals = [ev(y, a) for y in e[2]]
+                if e[1] == '&':
+                    return all(vals)
+                if e[1] == '|':
+                    return any(vals)
+                r = False
+                for b_ in vals:
+                    r ^= b_
+                return r
+            if e[0] == 'un':
+                return not ev(e[2], a)
+            return a[e]
+        import itertools
+
+        def canon(negate):
+            terms = []
+            for bits in itertools.product((False, True), repeat=len(order)):
+                a = dict(zip(order, bits))
+                val = ev(v, a)
+                if (not val) if negate else val:
+                    lits = tuple(l_ if a[l_] else ('un', '~', l_) for l_ in order)
+                    terms.append(lits[0] if len(lits) == 1 else ('nary', '&', lits))
+            if not terms:
+                return None
+            return terms[0] if len(terms) == 1 else ('nary', '|', tuple(terms))
+        if x[1][2] in ('any', 'bool'):
+            cv = canon(False)
+            if cv is None:
+                return ('const', 0)
+            out = ('call', ('attr', cv, 'any'), (), ())
+        else:
+            cv = canon(True)
+            if cv is None:
+                return ('const', 1)
+            out = ('un', '~', ('call', ('attr', cv, 'any'), (), ()))
+        return out if out != x else None
 
     def _never_none_attrs(self):
         """Attributes of the component that every store in the class binds to the result of a call (an object created or requested
